@@ -222,7 +222,7 @@ fn relations(tier: Tier, ellipsoids: &[String]) -> Vec<Relation> {
     // 7. merc on a sphere == webmerc on the same sphere
     let merc = projections().into_iter().find(|p| p.op == "webmerc").unwrap();
     let inputs = lattice(&merc, lat_step, lon_step);
-    for sphere in ["sphere", "6378137,1e300"] {
+    for sphere in ["sphere", "6378137,1e300", "6370997,0"] {
         v.push(Relation {
             key: "merc on a sphere equals webmerc on the same sphere".into(),
             def_a: format!("merc ellps={sphere}"),
